@@ -61,6 +61,9 @@ def url_parts():
                                 yield sc + sl + us + ho + pa + qu + fr
 
 
+TAILS = ["\"onerror=\"x", "<b>", "a b", "`{}|^\\", "é€", "%zz", "x\ty", "'", "&amp;&lt;", "a\\\"b"]
+
+
 def respell_options(ch):
     out = []
     if ch.upper() != ch:
@@ -242,6 +245,10 @@ def _iter(sh):
         for sp in spellings(w, nre, 1, insmax):
             u = p + sp + "alert(1)"
             yield u
+        # the unre-spelled word followed by every metacharacter-laden tail (what follows an allowed prefix must
+        # still be normalised)
+        for tail in TAILS:
+            yield p + w + tail
     elif sh[0] == "parts":
         _, si, ui, _ncfg = sh
         sc, us = U_SCHEME[si], U_USER[ui]
